@@ -199,6 +199,20 @@ class RealContainers:
             finally:
                 g.close()
             return self.items(out)
+        if op == "ordopen":
+            # an ordered iteration advanced k steps and left open while another one runs
+            g = q.ordereditems()
+            for _ in range(int(a[1])):
+                try:
+                    next(g)
+                except StopIteration:
+                    break
+            self.kept.setdefault(("pq", i), []).append(g)
+            return "ok"
+        if op == "ordclose":
+            for g in self.kept.pop(("pq", i), []):
+                g.close()
+            return "ok"
         if op == "drain":
             c = q.copy()
             out = []
